@@ -133,7 +133,7 @@ public:
              const LeafSymbolicDataTarget& inParticlesIndex, const long int targetIndexes[],
              const ParticlesClassValuesTarget& inOutParticles,
              ParticlesClassRhs& inOutParticlesRhs, const long int inNbOutParticles,
-             const long arrayIndexSrc) const {
+             const long arrayIndexSrc) {
         std::cout << "[INTERACTION] P2PTsm:" << std::endl;
         std::cout << "[INTERACTION]  - Neighbor indboxLimitex: " << inNeighborIndex.spaceIndex << std::endl;
         std::cout << "[INTERACTION]  - Neighbor pos: " << TbfUtils::ArrayPrinter(inNeighborIndex.boxCoord) << std::endl;
@@ -152,8 +152,8 @@ public:
             }
         }
 
-        RealKernel::P2P(inNeighborIndex, inParticlesNeighbors, neighborsIndexes, inNbParticlesNeighbors, inParticlesIndex,
-                        targetIndexes, inOutParticles, inOutParticlesRhs, inNbOutParticles, arrayIndexSrc);
+        RealKernel::P2PTsm(inNeighborIndex, neighborsIndexes, inParticlesNeighbors, inNbParticlesNeighbors, inParticlesIndex,
+                           targetIndexes, inOutParticles, inOutParticlesRhs, inNbOutParticles, arrayIndexSrc);
     }
 
     template <class LeafSymbolicData,class ParticlesClassValues, class ParticlesClassRhs>
